@@ -348,7 +348,7 @@ distinct = distinct (accessor, d, t-class); oracle = harness integer calendar: e
         let n = ctx.tier.pick(200_000u64, 2_000_000u64);
         let all: [Acc; 7] = [Acc::MessageHeader, Acc::RadialHeader, Acc::RadialModel, Acc::VolumeHeader, Acc::BypassMap, Acc::ClutterMapStatus, Acc::ClutterFilterMap];
         for i in 0..n {
-            if i % 16 == 1 {
+            if i % 128 == 1 {
                 crate::props::poison::run(i as u64);
             }
             let d = match rng.below(4) {
